@@ -294,21 +294,51 @@ def read (b : Backend) (s : Store) (loc : Path) : Option Bytes :=
 def mkdirs (s : Store) (p : Path) : Store :=
   fun q => if properPrefix q p && (s q).isNone then some .dir else s q
 
-/-- a strict ancestor of `p` that is a regular file -/
-def blockedAncestor (s : Store) (p : Path) : Bool :=
-  (List.range p.length).any fun n => (match s (p.take n) with | some (.file _) => true | _ => false)
+def isFileEntry : Option Entry → Bool
+  | some (.file _) => true
+  | _ => false
 
-/-- resources.rs `Source::write`. Memory: always succeeds. File system: `create_dir_all(parent)`
+/-- a strict ancestor of `p` is a regular file -/
+def blockedAncestor (s : Store) (p : Path) : Bool :=
+  (List.range p.length).any fun n => isFileEntry (s (p.take n))
+
+/-- the failure test of resources.rs `Source::write` on the file system: `create_dir_all(parent)`
 fails when an ancestor is a file (error path = parent); `File::create` fails when the location
-is a directory (error path = location). Permissions are not modelled. -/
-def write (b : Backend) (s : Store) (loc : Path) (content : Bytes) : Except Path Store :=
+is a directory (error path = location). Memory: never fails. Permissions are not modelled. -/
+def writeError (b : Backend) (s : Store) (loc : Path) : Option Path :=
   let p := resolve b loc
   if b.fsys then
-    if blockedAncestor s p then .error loc.dropLast
-    else if s p = some .dir then .error loc
-    else .ok (upd (mkdirs s p) p (some (.file content)))
-  else
-    .ok (upd s p (some (.file content)))
+    if blockedAncestor s p then some loc.dropLast
+    else if s p = some .dir then some loc
+    else none
+  else none
+
+/-- the effect of a successful `Source::write` -/
+def applyWrite (b : Backend) (s : Store) (loc : Path) (content : Bytes) : Store :=
+  let p := resolve b loc
+  if b.fsys then upd (mkdirs s p) p (some (.file content))
+  else upd s p (some (.file content))
+
+/-- resources.rs `Source::write`. -/
+def write (b : Backend) (s : Store) (loc : Path) (content : Bytes) : Except Path Store :=
+  match writeError b s loc with
+  | some p => .error p
+  | none => .ok (applyWrite b s loc content)
+
+/-- worker.rs `advance_work` + `apply_rules` for one item up to (not including) the effect of
+the final write: `resources.get`, then `T` (parse, bundle, rules, generate), then the checks of
+the single `resources.write`. -/
+def itemResult (b : Backend) (T : Path → Bytes → Except Nat Bytes) (s : Store) (it : Item) :
+    Except Err Bytes :=
+  match read b s it.source with
+  | none => .error (.read it.source)
+  | some content =>
+    match T it.source content with
+    | .error code => .error (.transform it.source code)
+    | .ok bytes =>
+      match writeError b s it.output with
+      | some p => .error (.write p)
+      | none => .ok bytes
 
 /-- `status`: `none` = NotStarted, `some none` = Done(Ok), `some (some e)` = Done(Err e);
 keyed by the work item's source like the graph node weights. -/
@@ -317,24 +347,17 @@ structure State where
   status : Path → Option (Option Err)
   stopped : Bool
 
-def State.fail (st : State) (it : Item) (e : Err) (failFast : Bool) : State :=
-  { st with status := upd st.status it.source (some (some e)), stopped := failFast }
-
-/-- one iteration of the `for node_index in node_indexes` loop: `advance_work` (get, parse,
-rules, generate, ONE write at the very end) and the error arm with `fail-fast`. -/
+/-- one iteration of the `for node_index in node_indexes` loop: `advance_work` and the error arm
+with `fail-fast` (`break 'work_loop`). -/
 def step (b : Backend) (T : Path → Bytes → Except Nat Bytes) (failFast : Bool)
     (st : State) (it : Item) : State :=
   if st.stopped then st else
-  match read b st.store it.source with
-  | none => st.fail it (.read it.source) failFast
-  | some content =>
-    match T it.source content with
-    | .error code => st.fail it (.transform it.source code) failFast
-    | .ok bytes =>
-      match write b st.store it.output bytes with
-      | .error p => st.fail it (.write p) failFast
-      | .ok store' =>
-        { st with store := store', status := upd st.status it.source (some none) }
+  match itemResult b T st.store it with
+  | .error e =>
+    { st with status := upd st.status it.source (some (some e)), stopped := failFast }
+  | .ok bytes =>
+    { st with store := applyWrite b st.store it.output bytes,
+              status := upd st.status it.source (some none) }
 
 def State.init (s : Store) : State := ⟨s, fun _ => none, false⟩
 
@@ -438,5 +461,29 @@ def classOverlap (b : Backend) (t : Tree) (input : Path) (output : Option Path) 
     !isFile b t input &&
     resolve b out ≠ resolve b (normalize input) &&
     !noOverlap (resolve b (normalize input)) (resolve b out)
+
+/-! ### static independence of two work items -/
+
+/-- Two work items cannot influence each other: different sources, different destinations, no
+destination is the other's source; on the file system additionally no destination (or source)
+lies strictly above the other's destination. -/
+def Indep (b : Backend) (x y : Item) : Prop :=
+  x.source ≠ y.source ∧
+  resolve b x.source ≠ resolve b y.source ∧
+  resolve b x.output ≠ resolve b y.output ∧
+  resolve b x.output ≠ resolve b y.source ∧
+  resolve b y.output ≠ resolve b x.source ∧
+  (b.fsys = true →
+    properPrefix (resolve b x.output) (resolve b y.output) = false ∧
+    properPrefix (resolve b y.output) (resolve b x.output) = false ∧
+    properPrefix (resolve b x.source) (resolve b y.output) = false ∧
+    properPrefix (resolve b y.source) (resolve b x.output) = false)
+
+instance (b : Backend) (x y : Item) : Decidable (Indep b x y) := by
+  unfold Indep; infer_instance
+
+
+/-- the region in which Part 1 of the theorems applies to a concrete work list -/
+def pairwiseIndep (b : Backend) (wl : List Item) : Bool := decide (wl.Pairwise (Indep b))
 
 end DarkluaModel.C11
